@@ -452,6 +452,30 @@ class C06(Prop):
         if err:
             raise Violation("data-vs-declaration", f"{err}: {show(node)}")
         stt.count("eager-type-ok")
+        # the same for the two deferred routes to a value: the reflect-built term evaluated afterwards, and the term built
+        # under normalize (normal forms, n-ary contractions) evaluated afterwards
+        from funsor.interpreter import reinterpret
+
+        for route in ("reflect-then-evaluate", "normalize-then-evaluate"):
+            try:
+                if route == "reflect-then-evaluate":
+                    fr = reinterpret(t)
+                else:
+                    with I.normalize:
+                        tn = build(node)
+                    fr = reinterpret(tn)
+            except Exception as e:
+                stt.count(route + "-raised:" + innermost_funsor_frame(e))
+                continue
+            rin, rout = funsor_type(fr)
+            if rout != fout:
+                raise Violation("deferred-output-differs-from-lazy", f"{route}: output {rout}, lazily declared {fout}: {show(node)}")
+            if not set(rin) <= set(fin) or any(rin[k] != fin[k] for k in rin):
+                raise Violation("deferred-inputs-not-subset", f"{route}: inputs {rin}, lazily declared {fin}: {show(node)}")
+            err = check_tensor_data(fr)
+            if err:
+                raise Violation("data-vs-declaration", f"{route}: {err}: {show(node)}")
+            stt.count(route + "-type-ok")
         kinds = {n[0] for n in walk(node) if n[0] not in ("num", "ten", "var", "slice")}
         if len(kinds) >= 2:
             stt.mark_nontrivial(case_hash(node))
